@@ -19,3 +19,7 @@ reg("C12", "property-based testing: exhaustive integer box for the stock predica
     "Part (a) enumerates every argument combination in the stated box and compares with the arithmetic definitions of the property; part (b) runs generated inputs under selectors with 1-3 value conditions at both stack levels and compares the delivered stream (and the effect of an override attached to the same selector) with a reference interpreter that filters/substitutes by the reference predicates.",
     "Trusts the reference interpreter of lo/li in checks/c12.py and vlib/model_paths.py; throttle is only checked for plumbing (once per candidate event, in order).",
     "DESIGN.md section 5 C12")
+reg("C05", "property-based testing (stateful): Hypothesis rule-based machines over activation/deactivation/call histories, model of active probes + model_paths, invariants after every step",
+    "Histories over nested with-blocks (left normally / by exception / with a reducer raising on completion), global probes deactivated in any order, refused activations and calls are applied to ptera and to a model; after every step each probe's stream must equal the model's (exactly-once while active, frozen afterwards), functions no active probe uses must be on their original code with zero counters, the installed handlers must be exactly those of the active probes, and at quiescence a fresh probe behaves like the first ever. A second machine does the same for plain overlays on tooled copies.",
+    "Reads ptera internals at the observation points the property names (fn.__code__, __ptera_stack__ counters, HandlerCollection.current, global_probes, probe._ol.handlers).",
+    "DESIGN.md section 5 C05")
